@@ -23,6 +23,121 @@ HF = "pin::calculate_hash"
 VF = "pin::verify_client_pin_hash"
 
 
+def lookup_rule(ctx, rep, se):
+    """the loops over the digit slice: per element, `*b = position of *b in remap_pin_grid(seed)`
+    and `*b += 0x30`, fused or in two passes (in that order), nothing else"""
+    from rules import arith
+    body = se.body
+    grid = None
+    digits = None
+    for i in se.term_info.values():
+        if i.get("k") == "call" and i["name"] == "pin::remap_pin_grid" and strip(i["args"][0]) == ("param", 2):
+            grid = strip(i["term"])
+        if i.get("k") == "call" and i["name"] == "pin::pin_to_bytes":
+            digits = strip(i["term"])
+    if grid is None or digits is None:
+        rep.violation("transcript", HF, "digit-lookup", "remap_pin_grid(seed) / pin_to_bytes(pin) not found", body.loc())
+        return
+
+    def is_lookup(v, elem):
+        """v = index of the current element in the grid"""
+        v = strip(v)
+        while v[0] == "cast" and v[1] == "IntToInt":
+            v = v[2]
+        if v[0] == "field" and v[2] == 0:
+            v = v[1]
+            via_find = True
+        else:
+            via_find = False
+        if not (util.is_call(v) and v[1] in util.UNWRAP):
+            return False
+        f = strip(v[2][0])
+        if not util.is_call(f) or f[1].split("::")[-1] not in ("find", "position"):
+            return False
+        it = strip(f[2][0])
+        if it[0] == "mutref":
+            old = se.call_old.get((f[3][:2], 0))
+            it = strip(old) if old is not None else it
+        want_find = f[1].endswith("::find")
+        if want_find != via_find:
+            return False
+        if want_find:
+            if not util.is_call(it, "std::iter::Iterator::enumerate"):
+                return False
+            it = strip(it[2][0])
+        if not (util.is_call(it, "core::slice::<impl [T]>::iter") and strip(it[2][0]) == grid):
+            return False
+        mi = se.term_info.get(f[3][1], {})
+        cl = mi.get("locargs", (None, None))[1] if len(mi.get("locargs", ())) > 1 else None
+        if cl is None or not (cl[0] == "agg" and cl[1] == "closure" and len(cl[4]) == 1 and cl[4][0][0] == "ref"):
+            return False
+        # the captured value is the current element
+        cap_val = util.value_before_terminator(se, f[3][1], cl[4][0][1]) if cl[4][0][1][0] == "local" else None
+        if cap_val is None or strip(cap_val) != strip(elem):
+            return False
+        cse = ctx.flat.run(cl[2])
+        if cse is None:
+            return False
+        cand = ("field", ("param", 2), 1) if want_find else ("param", 2)
+        env = {cand: "cand", ("field", ("param", 1), 0): "cur"}
+        r = strip(cse.ret)
+        if util.is_call(r) and r[1].endswith("::eq") and len(r[2]) == 2:
+            r = ("binop", "Eq", r[2][0], r[2][1])
+        n = arith.norm(r, env)
+        return n in (("Eq", ("sym", "cand"), ("sym", "cur")), ("Eq", ("sym", "cur"), ("sym", "cand")))
+
+    passes = []
+    for lp in util.for_loops(ctx, se):
+        if "slice::IterMut" not in (lp["resolved"] or ""):
+            continue
+        src = lp["init"]
+        if src is not None and strip(src)[0] == "mutref" and lp["init_call"] is not None:
+            old = se.call_old.get((lp["init_call"][3][:2], 0))
+            src = old if old is not None else src
+        src = strip(src) if src is not None else None
+        if src is not None and util.is_call(src) and src[1].endswith("<impl [T]>::iter_mut"):
+            inner = src[2][0]
+            if strip(inner)[0] == "mutref":
+                inner = se.call_old.get((src[3][:2], 0), inner)
+            src = strip(inner)
+        # a later pass sees the slice as left by the earlier pass over it
+        while src is not None and src[0] == "after" and util.is_call(src[1]) and src[1][1].split("::")[-1] in ("into_iter", "iter_mut") and src[2] == 0:
+            src = strip(src[3])
+        if src is None or src != digits:
+            continue
+        elem = lp["elem"]
+        stores = [(k, v) for k, (loc, v) in se.assigns.items() if loc == ("deref", elem) or (loc[0] == "deref" and strip(loc[1]) == strip(elem))]
+        passes.append((lp["next_bb"], elem, stores))
+    passes.sort()
+    good = False
+    why = "%d passes over the digit slice" % len(passes)
+    cur = lambda elem: strip(("deref", elem))
+
+    def add30(v, inner_pred):
+        v = strip(v)
+        if v[0] == "field" and v[2] == 0 and v[1][0] == "binop" and v[1][1] == "AddWithOverflow":
+            v = ("binop", "Add", v[1][2], v[1][3])
+        if v[0] == "binop" and v[1] in ("Add", "AddWithOverflow"):
+            a, b = v[2], v[3]
+            if a[:2] == ("int", 0x30):
+                a, b = b, a
+            return b[:2] == ("int", 0x30) and inner_pred(a)
+        return False
+
+    if len(passes) == 1 and len(passes[0][2]) == 1:
+        head, elem, st = passes[0]
+        good = add30(st[0][1], lambda x: is_lookup(x, elem))
+        why = "one pass: *b = '0' + position of *b in the remapped grid" if good else "the single pass does not store '0' + the digit's position in the remapped grid"
+    elif len(passes) == 2 and all(len(p_[2]) == 1 for p_ in passes):
+        (h1, e1, s1), (h2, e2, s2) = passes
+        first = is_lookup(s1[0][1], e1)
+        second = add30(s2[0][1], lambda x: strip(x) == cur(e2))
+        ordered = cfg.must_pass_block(body, h1, h2)
+        good = first and second and ordered
+        why = "two passes: *b = position of *b in the remapped grid; then *b += 0x30" if good else "passes: lookup %s, ascii offset %s, in that order %s" % (first, second, ordered)
+    rep.check(good, "transcript", HF, "digit-lookup", why, "the digits hashed are not '0' + (position of each digit in the remapped grid): " + why, body.loc())
+
+
 def check(ctx, rep):
     fb = ctx.fb
     from rules import algos
@@ -55,6 +170,8 @@ def check(ctx, rep):
         if sv[0] == "binop" and sv[1] in ("AddWithOverflow", "Add") and (sv[3] == ("int", 0x30, "u8") or sv[2] == ("int", 0x30, "u8")):
             adds.append(bi)
     rep.check(len(adds) == 1, "transcript", HF, "ascii-offset", "digits are offset by 0x30 before hashing", "expected exactly one `+ 0x30` on the digit bytes, found %d" % len(adds), body.loc())
+    # ---- every digit d is replaced by '0' + (position of d in the remapped grid), in place
+    lookup_rule(ctx, rep, se)
     # ---- 4..10 gate: both comparisons against the constants, None on the out-of-range edges, hashing only inside
     lo = fb.const_int("pin::MIN_PIN_LENGTH")
     hi = fb.const_int("pin::MAX_PIN_LENGTH")
